@@ -180,12 +180,19 @@ def main(argv=None):
     targets = []
     for key in need:
         targets.append((key, 200))
+    n_stand = plan.get('stand_in_n', {}).get(tier, 80 if tier == 'quick' else 800)
+    bounded = []
     for t in functions:
         c = reg.by_target[t]
         for cfg in (c.configs or [None])[:3]:
             key = (t, json.dumps(cfg or None, sort_keys=True))
             if key not in need:
-                targets.append((key, n_cross))
+                targets.append((key, n_stand if c.stand_in else n_cross))
+        if c.stand_in:
+            bounded.append({'function': t, 'obligations_not_proved': sorted(eng.functions.get(t, {}).get('stand_in', {})),
+                            'stand_in': f'contract evaluated at run time on the real code for {n_stand} generated inputs '
+                                        f'satisfying requires (never counted in discharged)'})
+    extra_cov['bounded'] = bounded
     for (t, cfgs), n in targets:
         if (t, cfgs) in seen_fc or n <= 0:
             continue
